@@ -32,7 +32,9 @@ ASSUMPTIONS = ['open zones of the reference matcher (null ids inside a batch arr
 
 FAULT_KINDS = ['none', 'permute', 'omit', 'dup', 'extra', 'id_other', 'id_twin', 'id_null', 'id_foreign', 'batch_error',
                'member', 'error_member', 'not_json', 'truncate', 'unwrap', 'empty_array', 'null_error_extra']
-ID_POOL: List[Any] = [1, '1', 2, 'abc', 0, '', -1, 'x', 10, '10']
+ID_POOL: List[Any] = [1, '1', 2, 'abc', 0, '', -1, 'x', 10, '10',
+                      # long ids (composite / UUID-like strings, a 45-digit integer)
+                      'gateway-07/req-000041/sess-3f9a1c2e7b', '6f1e2d3c-0000-4a5b-8c7d-9e0f1a2b3c4d', 10 ** 44 + 7]
 
 
 def _draw_fault(ch: Any, kind: str, n_calls: int) -> Optional[Tuple[Any, ...]]:
